@@ -104,13 +104,13 @@ Proof.
   intros rv nd r s F. unfold handle_response.
   destruct (n_state nd) eqn:S; destruct (q_kind r) eqn:K; destruct (s_result s) eqn:R; cbn [fst];
     try lia;
-    try (rewrite term_commit; lia);
+    try (destruct (ack_counts rv nd r); cbn [fst]; [rewrite term_commit|]; lia);
     try (unfold reconcile; cbn [fst]; lia);
     try (match goal with |- context [if n_term nd <? ?l then _ else _] => destruct (N.ltb_spec (n_term nd) l) end; cbn; lia).
   - (* Candidate, Vote, Ok *)
     unfold vote_counts. rewrite F. cbn [negb orb].
     destruct (N.eqb_spec (q_term r) (n_term nd)) as [E|]; cbn [fst]; [|lia].
-    unfold vote_received. destruct (_ <? _); cbn; lia.
+    unfold vote_received. destruct (_ <? _); [destruct (fix_ack_term rv)|]; cbn; lia.
   - (* Election, PreVote, Ok *)
     unfold pre_vote_received. destruct (_ <? _); cbn; lia.
 Qed.
@@ -381,19 +381,27 @@ Proof.
   apply E3. eapply H; eauto.
 Qed.
 
-(* the three defect classes rooted in the election code never occur in the repaired revision *)
-Theorem fixed_no_election_classes : forall size evs,
+(* the three defect classes rooted in the election code never occur in a revision with both election repairs
+   (whatever the third flag, the acknowledgement repair, is: `rr_fixed` and `rr_before_ack_fix`) *)
+Theorem elect_fixed_no_election_classes : forall rv size evs,
+  fix_vote_term rv = true -> fix_vote_match rv = true ->
   size <> 1 ->
-  let h := c_hist (run rr_fixed size evs) in
+  let h := c_hist (run rv size evs) in
   double_vote_b h = false /\ stale_vote_b h = false /\ ack_below_vote_b h = false.
 Proof.
-  intros size evs Hs. cbv zeta. unfold run.
-  pose proof (run_K rr_fixed evs _ eq_refl eq_refl (init_K size Hs)) as Kr.
+  intros rv size evs F1 F2 Hs. cbv zeta. unfold run.
+  pose proof (run_K rv evs _ F1 F2 (init_K size Hs)) as Kr.
   split; [|split].
   - apply double_vote_of_once. apply (k_once _ Kr).
   - apply (k_nostale _ Kr).
   - apply (k_noack _ Kr).
 Qed.
+
+Theorem fixed_no_election_classes : forall size evs,
+  size <> 1 ->
+  let h := c_hist (run rr_fixed size evs) in
+  double_vote_b h = false /\ stale_vote_b h = false /\ ack_below_vote_b h = false.
+Proof. intros size evs. apply elect_fixed_no_election_classes; reflexivity. Qed.
 
 (* ================================================================== the one-node cluster *)
 
@@ -453,15 +461,23 @@ Proof. constructor; cbn; eauto. eexists; repeat split; reflexivity. Qed.
 
 (* for EVERY cluster size and EVERY adversarial event list (delivery in any order, loss, duplication, arbitrary
    timer readings, client appends): no two distinct nodes ever become Leader with the same term *)
-Theorem election_safety_fixed : forall size evs, election_safety (c_hist (run rr_fixed size evs)).
+Theorem election_safety_elect_fixed : forall rv size evs,
+  fix_vote_term rv = true -> fix_vote_match rv = true -> election_safety (c_hist (run rv size evs)).
 Proof.
-  intros size evs. destruct (N.eq_dec size 1) as [->|Hs].
-  - pose proof (run_K1 rr_fixed evs _ init_K1) as Kr. unfold run.
+  intros rv size evs F1 F2. destruct (N.eq_dec size 1) as [->|Hs].
+  - pose proof (run_K1 rv evs _ init_K1) as Kr. unfold run.
     intros i j t Hi Hj. rewrite (k1_leaders _ Kr) in Hi, Hj.
     destruct Hi as [Hi|[]]. destruct Hj as [Hj|[]]. congruence.
-  - destruct (fixed_no_election_classes size evs Hs) as (DV & _ & _).
+  - destruct (elect_fixed_no_election_classes rv size evs F1 F2 Hs) as (DV & _ & _).
     apply election_safety_cond; auto.
 Qed.
+
+Theorem election_safety_fixed : forall size evs, election_safety (c_hist (run rr_fixed size evs)).
+Proof. intros. apply election_safety_elect_fixed; reflexivity. Qed.
+
+(* today's /repo: both election repairs, not yet the acknowledgement repair *)
+Theorem election_safety_before_ack_fix : forall size evs, election_safety (c_hist (run rr_before_ack_fix size evs)).
+Proof. intros. apply election_safety_elect_fixed; reflexivity. Qed.
 
 (* non-vacuity: a run of the repaired revision that elects four leaders in four terms; the event lists that
    gave two leaders of term 1 before the repairs now elect exactly one; a one-node cluster *)
